@@ -3,6 +3,8 @@ C08 — line-protocol driver.
   new   k:v k:v ...          configuration + initial data base; answers with the observation after Irc()
   msg   <command> <args> <nick>   Irc.feedMsg, queues drained
   reset                      Irc.reset() called directly (stub driver runs)
+  dstart                     SocketDriver(irc)                       (real driver runs)
+  run <now> <due> <msg> ...  one SocketDriver.run(); each message is hexcmd;hexargs;hexnick
 Observation (TAB separated): outs fsm ls req ack nak next cur auth dec nick after exc
 -/
 import LimnoriaModel.C08.Model
@@ -122,6 +124,28 @@ structure DState where
 
 def obsR (r : StepResult) : String := observe r.st (r.fast ++ r.slow ++ r.events) r.exc
 
+def decMsg (f : String) : Option Msg :=
+  match f.splitOn ";" with
+  | [c, a, n] => do
+    let c ← dec c
+    let a ← decList a
+    let n ← dec n
+    pure ⟨c, a, n⟩
+  | _ => none
+
+def encWire (w : List (Nat × Out)) : String :=
+  if w.isEmpty then "-" else ";".intercalate (w.map fun (n, o) => toString n ++ "@" ++ encOut o)
+
+def encDrv (d : Drv) : String :=
+  (if d.connected then "1" else "0") ++ "\t" ++ encServer d.current ++ "\t" ++
+  (if d.servers.isEmpty then "-" else ",".intercalate (d.servers.map encServer)) ++ "\t" ++
+  (if d.scheduled then "1" else "0") ++ "\t" ++ toString d.sock
+
+/-- observation after a real-driver operation: the queues are reported, not drained (the driver drains
+them itself when it is connected), plus what went over the wire and the driver's own state -/
+def observeD (s : St) : String :=
+  observe s s.ev none ++ "\t" ++ encOuts (s.fastq ++ s.slowq) ++ "\t" ++ encWire s.wire ++ "\t" ++ encDrv s.drv
+
 def stepD (d : DState) : List String → DState × String
   | "new" :: fs =>
     match parseCfg fs, parseDb fs, (field fs "stub").bind decServer with
@@ -129,7 +153,8 @@ def stepD (d : DState) : List String → DState × String
       let base : St := { wanted := if fBool fs "leak" then Gen.Conn.requestCapabilities ++ [sSasl] else Gen.Conn.requestCapabilities,
                          db := db, now := fNat fs "now", drv := { current := stub } }
       let r := start cfg base
-      ({ cfg := some cfg, st := r.st }, obsR r)
+      -- with the real driver nobody has taken the connect messages yet: they stay queued
+      ({ cfg := some cfg, st := if cfg.realDriver then { initSt cfg base with ev := [] } else r.st }, obsR r)
     | _, _, _ => (d, "bad-op")
   | ["msg", c, a, n] =>
     match d.cfg, dec c, decList a, dec n with
@@ -143,6 +168,16 @@ def stepD (d : DState) : List String → DState × String
       let r := applyOp cfg d.st .reset
       ({ d with st := r.st }, obsR r)
     | none => (d, "bad-op")
+  | ["dstart"] =>
+    match d.cfg with
+    | some cfg => let s := drvStart cfg d.st; ({ d with st := s }, observeD s)
+    | none => (d, "bad-op")
+  | "run" :: now :: due :: msgs =>
+    match d.cfg, now.toNat?, msgs.mapM decMsg with
+    | some cfg, some now, some ms =>
+      let s := drvRun cfg now (due == "1") ms d.st
+      ({ d with st := s }, observeD s)
+    | _, _, _ => (d, "bad-op")
   | _ => (d, "bad-op")
 
 def handler : Driver.Handler := { σ := DState, init := {}, step := stepD }
